@@ -155,6 +155,55 @@ def mon_c01(tr):
     return out
 
 
+def mon_c01_history(tr):
+    """C01 on the reply history alone (the way a set of clients sees it): a hold is outstanding from its SUCCED reply
+    until its unlock is accepted, it expires or it is rolled back; at every grant as a new holder the outstanding
+    depth on the key must be <= the request's Count (unlimited branch excepted).  Independent of the server's own
+    counters, so it also sees two key managers serving one key."""
+    out = []
+    holds = collections.defaultdict(list)      # key -> [dict(lockid, depth, reqs:set, count)]
+    for i, st in enumerate(tr.steps):
+        for rp in st["replies"]:
+            g = tr.reqs.get(rp["req"])
+            if not g:
+                continue
+            key = g["key"]
+            hs = holds[key]
+            if g["islock"]:
+                if g["tflag"] & 0x4000 or g["tflag"] & 0x1000:
+                    continue
+                if rp["result"] == 0 and g["expried"] > 0:
+                    if rp["lrcount"] <= 1:
+                        before = sum(h["depth"] for h in hs)
+                        unlimited = rp["count"] == 0xffff and before >= 0xffff
+                        if before > rp["count"] and not unlimited:
+                            out.append(("count-bound:outstanding-holds-exceed-count", "request %d (Count %d) granted as a new holder while %d holds were outstanding on key %d according to the reply history"
+                                        % (rp["req"], rp["count"], before, key), i))
+                        hs.append(dict(lockid=rp["lockid"], depth=1, reqs={rp["req"]}, count=rp["count"]))
+                    else:
+                        for h in hs:
+                            if h["lockid"] == rp["lockid"]:
+                                h["depth"] = rp["lrcount"]; h["reqs"].add(rp["req"]); break
+                elif rp["result"] == R["LOCKED"] and g["flag"] & 2:
+                    for h in hs:
+                        if h["lockid"] == rp["lockid"]:
+                            h["reqs"].add(rp["req"]); break
+                elif rp["result"] == R["EXPRIED"]:
+                    for h in hs:
+                        if rp["req"] in h["reqs"]:
+                            hs.remove(h); break
+            else:
+                if rp["result"] == 0:
+                    for h in hs:
+                        if h["lockid"] == rp["lockid"]:
+                            if rp["lrcount"] == 0:
+                                hs.remove(h)
+                            else:
+                                h["depth"] = rp["lrcount"]
+                            break
+    return out
+
+
 # ------------------------------------------------------------------------------------------------ C02
 def mon_c02(tr):
     out = []
@@ -477,6 +526,8 @@ def mon_c10(tr):
         if f[0] == "role":
             leader = f[1] == "1"
             continue
+        if f[0] in ("start", "resume", "drain"):
+            continue        # scheduled threads may have passed the role check before a role change: judged by the correspondence
         rq = st["req"]
         if not leader and st["after"]:
             if rq and not rq["flag"] & 4:
@@ -584,4 +635,4 @@ def mon_panic(tr):
     return out
 
 
-MONITORS = dict(C11=mon_c11, C10=mon_c10, C15=mon_c15, C01=mon_c01, C02=mon_c02, C03=mon_c03, C04=mon_c04, C05=mon_c05, C06=mon_c06, C17=mon_c17, PANIC=mon_panic)
+MONITORS = dict(C01H=mon_c01_history, C11=mon_c11, C10=mon_c10, C15=mon_c15, C01=mon_c01, C02=mon_c02, C03=mon_c03, C04=mon_c04, C05=mon_c05, C06=mon_c06, C17=mon_c17, PANIC=mon_panic)
